@@ -3,7 +3,7 @@ import ApolloModel.Proofs.ParserType10
 import ApolloModel.Proofs.ParserValue9
 import ApolloModel.Proofs.ParserSel9
 import ApolloModel.Proofs.ParserComplete28
-import ApolloModel.Proofs.ParserExactS13
+import ApolloModel.Proofs.ParserExactS14
 import ApolloModel.Proofs.ParserDef19
 import ApolloModel.Proofs.ParserTermination8
 import ApolloModel.Proofs.ParserDoc5
@@ -883,6 +883,44 @@ example : (parse .document none 500 "query Q($v Int) { a }".toList).errors ≠ [
 example : (parse .document none 500 "scalar S".toList).errors = [] := by decide +kernel
 example : (parse .document none 500 "{ type }".toList).errors = [] := by decide +kernel
 example : (parse .document none 500 "\"d\" { a }".toList).errors ≠ [] := by decide +kernel
+
+/-! ### growth 10: the whole grammar at the exact budget — parameterised soundness, the exact follow condition -/
+
+/-- **the follow guard of `document_accept_complete` is sufficient, not exact** (kernel-evaluated): a shorthand query may
+    directly follow a type-system definition whose braces body is written (`DocFollowOk` forbids `{` after every object /
+    interface / enum / input definition), while after a definition WITHOUT body the `{` is read as its body.  Hence
+    "zero errors ⇔ … `DocFollowOk its`" is false; the exact condition is `Parse.Exact.DocFollowX`. -/
+theorem document_follow_guard_not_exact :
+    (parse .document none 500 "type T { a: Int } { b }".toList).errors = [] ∧
+    (parse .document none 500 "enum E { A } { b }".toList).errors = [] ∧
+    (parse .document none 500 "type T { b }".toList).errors ≠ [] ∧
+    (parse .document none 500 "scalar S (".toList).errors ≠ [] := by decide +kernel
+
+/-- `DocFollowOk` (the guard of the completeness theorem) implies the exact follow condition `DocFollowX`: only a
+    definition without its braces body restricts the next token (it must not be `{`) -/
+theorem document_follow_ok_implies_exact (its : List DocItem) (h : Parse.Exact.DocFollowOk its) : Parse.Exact.DocFollowX its :=
+  Parse.Exact.docFollowX_of_ok its h
+
+/-- **document_accept_sound_exact, parameterised.**  `L n : Parse.Exact.DefExact n` are the exact-soundness statements of
+    the eight type-system definition parsers and the seven extension parsers (entered as the dispatcher enters them on a
+    lexer queue, an error-free run consumed `l.toks` for ONE `LooseDef l` with `Parse.Exact.looseFit` at the budget of
+    the start state, and the next significant token is not `{` when the braces body is absent); operation and fragment
+    definitions need no hypothesis.  Then: zero errors of `Parser::parse` IMPLIES that the source lexes cleanly and its
+    significant tokens are `docToks its ++ [EOF]` for a non-empty list of items, every item within the EXACT budget
+    (`Parse.Exact.itemFit rl`) and the list satisfying the exact follow condition.  No guard on the source; the two
+    liberties are part of `DocItem`. -/
+theorem document_accept_sound_exact (L : ∀ n, Parse.Exact.DefExact n) (rl : Nat) (src : Parse.Str)
+    (herr : (parse .document none rl src).errors = []) :
+    LexClean src ∧ ∃ (ts : List Tok) (its : List DocItem) (e : Tok), sig (srcToks src) = ts ++ [e] ∧ e.kind = .eof ∧
+      ts.map astOfV = (docToks its).map some ∧ its ≠ [] ∧ (∀ i ∈ its, Parse.Exact.itemFit rl i) ∧ Parse.Exact.DocFollowX its :=
+  (Parse.Exact.document_sandwichG L rl src).1 herr
+
+/-- **document_accept_complete at the exact budget** (no hypothesis): the converse for the stronger follow guard -/
+theorem document_accept_complete_exact (rl : Nat) (src : Parse.Str) (its : List DocItem) (ts : List Tok) (e : Tok)
+    (hclean : LexClean src) (hsig : sig (srcToks src) = ts ++ [e]) (he : e.kind = .eof)
+    (hx : ts.map astOfV = (docToks its).map some) (hne : its ≠ []) (hfit : ∀ i ∈ its, Parse.Exact.itemFit rl i)
+    (hfol : Parse.Exact.DocFollowOk its) : (parse .document none rl src).errors = [] :=
+  Parse.Exact.parseDocument_complete_items rl src its ts e hclean hsig he hx hne hfit hfol
 
 end Executable
 
